@@ -419,11 +419,18 @@ func (p *Pollard) Verify(delHashes []Hash, proof Proof, remember bool) error {
 			"but have %d deletions", len(delHashes))
 	}
 
+	// Each calculated root must match the root of the tree that the targets
+	// are in.
+	rootIndexes, err := rootIndexesOfTargets(p.NumLeaves, len(p.Roots), proof.Targets)
+	if err != nil {
+		return err
+	}
 	rootMatches := 0
-	for i := range p.Roots {
-		if len(rootCandidates) > rootMatches &&
-			p.Roots[len(p.Roots)-(i+1)].data == rootCandidates[rootMatches] {
-			rootMatches++
+	if len(rootCandidates) == len(rootIndexes) {
+		for i, rootIndex := range rootIndexes {
+			if p.Roots[rootIndex].data == rootCandidates[i] {
+				rootMatches++
+			}
 		}
 	}
 	// Error out if all the rootCandidates do not have a corresponding
